@@ -242,8 +242,7 @@ Proof.
   - cbn [print_formula fhead_tok]. unfold lhs_paren, parens. destruct (paren_lhs _ _ _ _).
     + cbn. eexists; reflexivity.
     + destruct IHl as [rest E]. rewrite E. cbn. eexists; reflexivity.
-  - cbn [print_formula fhead_tok]. change (fassoc (FQ q vs g)) with (Some ALeft).
-    destruct (begins_with_variable _); cbn; eexists; reflexivity.
+  - cbn [print_formula fhead_tok print_quantification app]. eexists; reflexivity.
 Qed.
 
 (* a valid variable name makes the commit-cc14b46 test fire *)
@@ -484,9 +483,7 @@ Proof.
       destruct (IHl f (TRParen :: conn_tok c :: parens (paren_rhs (fprec (FBin c l r)) (fprec r) (fmand r) (fassoc (FBin c l r))) (print_formula false r) ++ R) ltac:(lia) Wl) as [E|(t & rl & r' & E)];
         rewrite E; reflexivity.
     + apply IHl; [lia|exact Wl].
-  - left. cbn [print_formula]. change (fassoc (FQ q vs g)) with (Some ALeft).
-    destruct (begins_with_variable _); destruct q; cbn [fmt_unary is_left tsp app print_quantification quant_tok];
-      apply peg_iterm_fail_tok; exact I.
+  - left. cbn [print_formula print_quantification app]. destruct q; apply peg_iterm_fail_tok; exact I.
 Qed.
 
 Lemma i_operand_formula_fail : forall r f Y, wf_formula r = true -> starts_int r = false -> fsize r < f ->
@@ -507,8 +504,7 @@ Proof.
       destruct (iterm_on_formula l f (TRParen :: conn_tok c :: parens (paren_rhs (fprec (FBin c l r)) (fprec r) (fmand r) (fassoc (FBin c l r))) (print_formula false r) ++ Y) ltac:(lia) Wl) as [E|(t & rl & r' & E)];
         rewrite E; reflexivity.
     + apply IHl; [exact Wl|exact SI|lia].
-  - cbn [print_formula]. change (fassoc (FQ q vs g)) with (Some ALeft).
-    destruct (begins_with_variable _); destruct q; reflexivity.
+  - cbn [print_formula print_quantification app]. destruct q; reflexivity.
 Qed.
 
 Lemma peg_gterm_minus_fail f X : i_operand (peg_iterm f) X = Fail -> peg_gterm (S f) (TMinus :: X) = Fail.
